@@ -316,7 +316,7 @@ Record msg_case := mkMsg {
   mc_der : bool;                                   (* Signature::from_der *)
   mc_key : option N;                               (* key the provider returns for the key id *)
   mc_alen : N; mc_assoc : bytes;                   (* what the verifier supplies *)
-  mc_signed : list (N * N * bytes);                (* ledger for this signature: digest, key, input *)
+  mc_signed : list (N * N * bytes * bytes);        (* ledger: digest, key, signature, signed input *)
   mc_expect : bool;
   mc_res : N }.
 
@@ -328,7 +328,7 @@ Definition msg_verdict (c : msg_case) : N :=
   let sig_parse := fun s : bytes => if mc_der c then Some s else None in
   let sig_verify := fun (pk : N) (d : bytes) (sg : bytes) =>
     match d with
-    | a :: d' => existsb (fun '(a', k, inp) => (a' =? a) && (k =? pk) && bytes_eqb inp d') (mc_signed c)
+    | a :: d' => existsb (fun '(a', k, s, inp) => (a' =? a) && (k =? pk) && bytes_eqb s sg && bytes_eqb inp d') (mc_signed c)
     | [] => false end in
   let m := sm_validate c_hash sig_parse sig_verify dec_hb dec_hdr (fun _ => mc_key c)
                        (mkSigned (mc_hb c) (mc_sig c)) (mc_alen c) (mc_assoc c) in
